@@ -12,6 +12,7 @@ for s in $seeds; do
   prop=${s%%-*}; checks=$prop
   [ "$s" = "C10-b" ] && checks="C10 C18"
   [ "$s" = "C18-c" ] && checks="C18 C17"
+  [ "$s" = "C08-g" ] && checks="C08 C12"   # snapshot skipped while another one is in progress: overlapping commands + restart = C12's pairs
   [ "$s" = "C04-f" ] && checks="C04 C05"   # two deploys committing stale routing tables: needs overlapping commands; C04 quantifies over command orders, C05 has the racing deploys
   [ "$s" = "C11-f" ] && checks="C11 C12"   # stale cached encoding needs two overlapping commands: C12's overlapping pairs
   [ "$s" = "C06-f" ] && checks="C06 C17"   # a probe left in flight / sent after the failed command returned: C17 owns the probe timing (slow-probe configs, select choice points)
